@@ -308,6 +308,10 @@ Inv_C10s(o) ==
   \* the peer closed (whether or not the channel has looked yet), nothing is in flight, everything that could wake
   \* the channel has happened: the stream has ended
   /\ (AtQ(o) /\ o.eof # "none" /\ o.faults = <<>> /\ ~o.panic /\ o.tracked = {} /\ ~o.f6) => o.stream # "live"
+  \* "and only then ends" is not "some time later": once the end of input has been read, nothing is in flight, nothing is
+  \* unflushed and the sink is writable, the stream has ended at the next settle point - without the clock having to move
+  /\ (AtPt(o) /\ o.pt.writable /\ o.eof = "seen" /\ o.faults = <<>> /\ ~o.panic /\ o.tracked = {} /\ ~o.f6 /\ o.unflushed = 0)
+       => o.stream # "live"
 (* server-side wake-ups: at a settle point with the sink writable everything pushed was read *)
 Inv_C02s(o) ==
   /\ ~o.spin
